@@ -381,6 +381,41 @@ func fnSrcHash(p *Program, fn *ssa.Function) string {
 
 // pickFns: the SSA functions a contract key denotes: concrete instances when the function is generic.
 func pickFns(p *Program, key string) []*ssa.Function {
+	if i := strings.Index(key, " closure@"); i >= 0 {
+		// the closure of the parent function that is passed to a call matching the pattern
+		pat := key[i+len(" closure@"):]
+		var out []*ssa.Function
+		for _, parent := range pickFns(p, key[:i]) {
+			for _, b := range parent.Blocks {
+				for _, ins := range b.Instrs {
+					mc, ok := ins.(*ssa.MakeClosure)
+					if !ok {
+						continue
+					}
+					refs := append([]ssa.Instruction{}, *mc.Referrers()...)
+					for _, r := range *mc.Referrers() {
+						if ct, ok := r.(*ssa.ChangeType); ok {
+							refs = append(refs, *ct.Referrers()...)
+						}
+					}
+					for _, r := range refs {
+						if c, ok := r.(ssa.CallInstruction); ok {
+							n := ""
+							if c.Common().IsInvoke() {
+								n = ifaceMethodName(c.Common())
+							} else if sc := c.Common().StaticCallee(); sc != nil {
+								n = canonName(sc)
+							}
+							if n != "" && patMatches(pat, n) {
+								out = append(out, mc.Fn.(*ssa.Function))
+							}
+						}
+					}
+				}
+			}
+		}
+		return out
+	}
 	var inst, gen []*ssa.Function
 	for _, f := range p.ByName[key] {
 		if len(f.Blocks) == 0 {
